@@ -9,7 +9,7 @@ from .collmodel import Node, SHAPES
 # cleared window ("TSW clear ticks are not representable by the legacy scalar delta" - an explicit error, not a silent loss).
 WINDOW_CLEARS = False
 WHOLE_SET_ASSIGN = False        # C04 / C05 / C20: a set assigned as a whole (copy_value_from), also inside dictionaries and bundles
-DYNLIST_CHILD_INVALIDATE = False  # elements of a dynamic list may be invalidated (and written again in the same cycle)
+DYNLIST_CHILD_INVALIDATE = True   # elements of a dynamic list may be invalidated (and written again in the same cycle)
 CONTAINER_INVALIDATE = False     # C04 only: explicit invalidation of a whole list / bundle / dictionary endpoint (op "I")
 
 
@@ -131,11 +131,18 @@ def gen_cscript(rng, shape_name, start, end, *, effective=False, allow_invalidat
             node.apply("I", t)
             out.append(f"{t}|I")
             continue
+        elem_kinds = {}
         for _ in range(nops):
             dynlist = node.kind == "tsl" and node.shape[1] == 0
             op = gen_op(rng, node, effective, universe, allow_invalidate and (not container or dynlist))
             if op is None:
                 continue
+            if dynlist:
+                # an element is either written or invalidated in one cycle, never both (what a write and an invalidation of one
+                # element in ONE cycle leave in the list's delta is the known finding F32 and its relatives: constructed witness only)
+                idx, kind = op[1:op.index("]")], ("i" if op.endswith("]i") else "w")
+                if elem_kinds.setdefault(idx, kind) != kind or (kind == "i" and sum(1 for o in ops if o == op)):
+                    continue
             node.apply(op, t)
             ops.append(op)
         if ops:
